@@ -879,11 +879,13 @@ mod os {
             }
             posix::reset_sigpipe()?;
 
-            if let Some(uid) = setuid {
-                posix::setuid(uid)?;
-            }
+            // the group must be changed first: once the user ID is dropped
+            // the process is no longer allowed to call setgid()
             if let Some(gid) = setgid {
                 posix::setgid(gid)?;
+            }
+            if let Some(uid) = setuid {
+                posix::setuid(uid)?;
             }
             if setpgid {
                 posix::setpgid(0, 0)?;
